@@ -52,20 +52,13 @@ Theorem C02_opaque_checker_sound :
   forall a b d, PrintParse.case_code (COpaque a b d) = 0%N -> a = true /\ b = true /\ d = true.
 Proof. exact opaque_code_sound. Qed.
 
-(** The well-formedness side conditions are necessary: a DELAY without frame names whose
-    duration is a symbolic expression does not round-trip in the model either (this is the
-    finding [pending-fix-delay-duration]: [DELAY 0 (pi)] prints [DELAY 0 pi]). *)
-Theorem C02_delay_refuted :
-  exists i, wf_instr i = false /\ p_program Repaired (print_instr i) <> Ok [i] [].
-Proof. exists (IDelay [QFixed 0] [] EPi). split; [reflexivity | vm_compute; discriminate]. Qed.
-
 (** Non-vacuity: a nested expression in a gate, a signed operand, a DELAY. *)
 Example C02_nonvacuous :
   let g := IGate [MDagger] (IdName 0)
              [EInfix (ENeg (ENeg EPi)) OSlash (EInfix (ENum false (VInt 2)) OCaret (EVar (IdName 1)))]
              [QFixed 0; QVar (IdName 2)] in
   let m := IMove (IdName 3, 0%N) (OInt (-9223372036854775808)) in
-  let d := IDelay [QFixed 0] [] (ENum false (VInt 5)) in
+  let d := IDelay [QFixed 0] [] EPi in
   forallb wf_instr [g; m; d] = true /\
   print_instr g = [TModifier MDagger; TId (IdName 0); TLParen; TOp OMinus; TLParen; TOp OMinus;
                    TId (IdRes RPi); TRParen; TOp OSlash; TLParen; TInt 2; TOp OCaret;
